@@ -4,6 +4,7 @@ import Genshi.Model.TmplImpl
 import Genshi.Model.TmplExtract
 import Genshi.Model.TmplText
 import Genshi.Model.TmplScan
+import Genshi.Model.TmplRaw
 namespace Driver.C04
 open Genshi Genshi.Tmpl Genshi.Sexp
 
@@ -197,6 +198,23 @@ def handleScan : List Sexp → Option Sexp
       pure (.str (Scan.printNew toks))
   | _ => none
 
+/-! text templates end to end from their source (`Model/TmplRaw.lean`) -/
+
+def handleRaw : List Sexp → Option Sexp
+  | [.atom "rawcompile", .atom lang, strict, .str src] => do
+      let st ← strict.toBool?
+      match Raw.compileRaw (lang == "oldtext") st src with
+      | .ok cevs => pure (.list [.atom "ok", .list (cevs.map cevS)])
+      | .error e => pure (.list [.atom "err", .atom (perrName e)])
+  | [.atom "rawrender", .atom lang, strict, fuel, .str src, data] => do
+      let st ← strict.toBool?
+      let fuel ← fuel.toNat?
+      let data ← data? data
+      match Raw.renderRaw fuel (lang == "oldtext") st src data with
+      | .ok r => pure (outRes r)
+      | .error e => pure (.list [.atom "err", .atom (perrName e)])
+  | args => handleScan args
+
 def handle : List Sexp → Option Sexp
   | [.atom verb, .atom lang, fuel, .list nodes, data] => do
       let fuel ← fuel.toNat?
@@ -213,6 +231,6 @@ def handle : List Sexp → Option Sexp
           if markup then pure (.list ((compileFlat nodes).map cevS))
           else pure (.list ((compileText nodes).map cevS))
       | _ => none
-  | args => handleScan args
+  | args => handleRaw args
 
 end Driver.C04
